@@ -7,3 +7,17 @@ pub open spec fn state_named(tbl: Map<String, u32>, name: String) -> Option<u32>
 pub open spec fn spec_in(tbl: Map<String, u32>, config: Seq<u32>, name: String) -> bool {
     tbl.contains_key(name) && config.contains(tbl[name])
 }
+
+/// the text `tokens` is `In ( name )` / `In ( 'name' )`, possibly followed by more tokens (which the null data model
+/// ignores)
+pub open spec fn in_call_name(t: Seq<Token>) -> Option<String> {
+    if t.len() >= 4 && (t[0] matches Token::Identifier(s) && s@ == "In"@) && (t[1] matches Token::Bracket(b) && b == '(') && (t[3] matches Token::Bracket(b) && b == ')') {
+        match t[2] {
+            Token::TString(n) => Some(n),
+            Token::Identifier(n) => Some(n),
+            _ => None,
+        }
+    } else {
+        None
+    }
+}
